@@ -11,6 +11,7 @@ import (
 
 func init() { register("C01", checkC01) }
 
+
 // Day-rate table B.1: quantities defined once per day (amount per day) and
 // consumed in sub-step scope.  Reasons in DESIGN.md Appendix B.1.
 var dayRatesWater = map[string]string{
@@ -32,6 +33,7 @@ func checkC01(p *Prog, r *Report) {
 	rateScaling(p, r, "C01.R2", dayRatesWater, 19)
 	c01R3(p, r)
 	c01R4(p, r)
+	dayHandover(p, r, "C01.R5")
 }
 
 // resolvePhi substitutes φ atoms of q by the value of arm k.
@@ -852,4 +854,25 @@ func termHas(t *Term, key string) bool {
 		}
 	}
 	return false
+}
+
+// c01Handover: everything the evapotranspiration routine hands to the water
+// kernel lives in long-lived state; each item must be (re)defined on every
+// path of every day's call, otherwise a day without that process keeps using
+// yesterday's value (phantom uptake or groundwater supply).
+func dayHandover(p *Prog, r *Report, rule string) {
+	r.Rule(rule, "daily hand-over from evapotranspiration to the water kernel: surface flux, actual evaporation, groundwater uptake, per-layer root uptake and per-layer evaporation are assigned on every path of the daily routine (scalars outside loops; arrays by a sweep over all layers whose arms cover every layer), so no value of an earlier day survives", 5)
+	x := walked(p, "hermes.Evatra")
+	if x == nil {
+		r.Ob("Evatra", "-", false, "hermes.Evatra not found")
+		return
+	}
+	items := []struct {
+		root  string
+		array bool
+	}{{"GlobalVarsMain.FLUSS0", false}, {"GlobalVarsMain.ETA", false}, {"WaterSharedVars.GWAUF", false}, {"GlobalVarsMain.TP", true}, {"WaterSharedVars.EV", true}}
+	for _, it := range items {
+		ok, why, n := definedOnAllPaths(x, it.root, it.array)
+		r.Ob("redefined:"+shortRoot(it.root), "-", ok, fmt.Sprintf("%s: %d defining store(s)/sweep(s); defined on every path: %v %s", shortRoot(it.root), n, ok, why))
+	}
 }
